@@ -15,7 +15,7 @@ pub fn explore(opts: &Opts) -> Explored {
     let mut sh = shapes(rank, dim);
     sh.extend(long_shapes());
     let ops = [OpK::Add, OpK::Sub, OpK::Mul, OpK::Div, OpK::Axpy(-2.0), OpK::Axpy(3.0)];
-    let variants: Vec<u64> = vec![opts.seed % 3, (opts.seed + 1) % 3, 3, 4];
+    let variants: Vec<u64> = if IS_F32 { vec![opts.seed % 3, (opts.seed + 1) % 3, 3, 4, 5] } else { vec![opts.seed % 3, (opts.seed + 1) % 3, 3, 4, 5, 6] };
     let n = sh.len() * sh.len();
     let local = par(opts, n, |i, l| {
         let a_dims = &sh[i / sh.len()];
@@ -85,6 +85,56 @@ pub fn explore(opts: &Opts) -> Explored {
             }
         }
     });
+    // operands that are two views of one buffer (an array and a reshape of it with different dimensions)
+    let mut local = local;
+    {
+        let alias = par(opts, sh.len(), |i, l| {
+            let a_dims = &sh[i];
+            let n = numel(a_dims);
+            for d2 in shapes_with_numel(n, 4) {
+                if &d2 == a_dims || broadcast_dims(a_dims, &d2).is_none() {
+                    continue;
+                }
+                l.states += 1;
+                for op in &ops {
+                    for swap in [false, true] {
+                        let case = || format!("op={} a={} with its reshape {} (same buffer){}", op.name(), fmt_dims(a_dims), fmt_dims(&d2), if swap { " swapped" } else { "" });
+                        if !l.want(&case) {
+                            continue;
+                        }
+                        let av = vals(n, 0, opts.seed % 3);
+                        let ra = T::from_f64(a_dims.clone(), &av);
+                        let rv = ra.reshape(&d2).unwrap();
+                        let expect = if swap { apply_ref(op, &[&rv, &ra]) } else { apply_ref(op, &[&ra, &rv]) };
+                        let expect = match expect {
+                            Ok(e) => e,
+                            Err(_) => continue,
+                        };
+                        let a = arr(a_dims, &av);
+                        let got = run_catch(|| {
+                            let v = a.reshape(d2.clone());
+                            let r = if swap { apply_impl(op, &[&v, &a], 0) } else { apply_impl(op, &[&a, &v], 0) };
+                            (r.dimensions().to_vec(), r.values().to_vec())
+                        });
+                        l.transitions += 1;
+                        l.validated += 1;
+                        match got {
+                            Err(msg) => l.violation("aliased-views", case(), format!("panicked: {}", msg)),
+                            Ok((d, v)) => {
+                                l.outcome(digest_vals(&d, &v));
+                                if d != expect.dims {
+                                    l.violation("aliased-views", case(), format!("dimensions {:?}, reference {:?}", d, expect.dims));
+                                } else if let Err(e) = cmp_slice(&v, &expect.x, Part::Value) {
+                                    l.violation("aliased-views", case(), e);
+                                }
+                            }
+                        }
+                    }
+                }
+            }
+        });
+        local.merge(alias);
+    }
     Explored {
         local,
         bounds: json!({"max_rank": rank, "max_dim": dim, "plus_long_shapes": long_shapes(), "shapes": sh.len(), "ordered_pairs": n,
